@@ -6,6 +6,16 @@ _SPECIAL = '"\\/,-?#0123456789[]{}:  \x00\x1f\x7f\x1e \t\n' \
            'é٣²\U0001F600\U00010000'
 
 
+def fdict(mapping):
+    """Like st.fixed_dictionaries, built from st.tuples: fixed_dictionaries
+    with four or more keys draws nothing under Hypothesis' fuzz_one_input
+    (bytestring provider) in this version, which would make the
+    coverage-guided campaigns vacuous."""
+    keys = list(mapping)
+    return st.tuples(*[mapping[k] for k in keys]).map(
+        lambda t: dict(zip(keys, t)))
+
+
 def text_st(max_size=8, surrogates=False):
     alpha = st.one_of(
         st.sampled_from(list(_SPECIAL)),
@@ -213,10 +223,13 @@ def hostile_msgpack_st(names, nsps):
                   st.lists(any_v, max_size=3)).map(lambda t: [t[0]] + t[1]))
     return st.one_of(
         any_v,
-        st.fixed_dictionaries(
-            {},
-            optional={'type': st.one_of(st.integers(-1, 8), any_v),
-                      'data': st.one_of(good_data, any_v),
-                      'nsp': st.one_of(st.sampled_from(nsps), any_v),
-                      'id': st.one_of(st.integers(0, 5), any_v),
-                      'extra': any_v}))
+        st.tuples(
+            st.lists(st.sampled_from(['type', 'data', 'nsp', 'id', 'extra']),
+                     unique=True, max_size=5),
+            st.one_of(st.integers(-1, 8), any_v),
+            st.one_of(good_data, any_v),
+            st.one_of(st.sampled_from(nsps), any_v),
+            st.one_of(st.integers(0, 5), any_v), any_v).map(
+            lambda t: {k: v for k, v in zip(
+                ['type', 'data', 'nsp', 'id', 'extra'], t[1:])
+                if k in t[0]}))
